@@ -120,7 +120,7 @@ def errOf (s : St) : Option Res :=
   | .closed => some (.err EPIPE)
   | _ => none
 
-def MAX_PENDING : Nat := 16384
+def MAX_PENDING : Nat := Generated.MAX_PENDING_WRITE
 
 def nextW : List WAns → WAns × List WAns
   | [] => (.n 1000000000, [])
